@@ -354,15 +354,11 @@ func runLZW(c *Ctx, rule string) {
 						continue // absolute (reset) assignment
 					}
 					nW++
-					okG := false
-					for _, alt := range altGuards(b) {
-						for _, g := range alt {
-							r := g.String()
-							if strings.Contains(r, ".hi") && strings.Contains(r, ".overflow") {
-								okG = true
-							}
-						}
-					}
+					// exactly at hi == overflow: the guards give hi ≥ overflow but not hi ≥ overflow+1
+					alts := altGuards(b)
+					_, atLeast := holdsAll(alts, wGE("hi ≥ overflow", 0, t(1, `\.hi$`), t(-1, `\.overflow$`)))
+					_, beyond := holdsAll(alts, wGE("hi > overflow", -1, t(1, `\.hi$`), t(-1, `\.overflow$`)))
+					okG := atLeast && !beyond
 					okV := false
 					switch f {
 					case "width":
@@ -665,6 +661,10 @@ func runLZW(c *Ctx, rule string) {
 		cl := c.calls(comp, byMethod("Close"))
 		by := c.calls(comp, byCallee("bytes.Buffer).Bytes"))
 		okO := len(cl) == 1 && len(by) == 1 && dominatesInstr(cl[0].Instr, by[0].Instr)
+		if okO {
+			_, plain := cl[0].Instr.(*ssa.Call) // a deferred Close runs after Bytes() was evaluated
+			okO = plain
+		}
 		c.check(okO, rule, "Compress flushes (Close) before taking the output", comp.Pos(), "Close → Bytes", "the output is taken before the writer is closed: the final code and eof are missing")
 		wr := c.calls(comp, byMethod("Write"))
 		okW := len(wr) == 1
@@ -673,6 +673,193 @@ func runLZW(c *Ctx, rule string) {
 			okW = render(a[0]) == "$0"
 		}
 		c.check(okW, rule, "Compress writes the whole input", comp.Pos(), "Write(bs)", "Compress does not write its whole argument")
+		// the empty input has the empty encoding on both sides (legacy format: no eof-only stream)
+		emptyExit := func(fn *ssa.Function) bool {
+			for _, e := range exitAlts(fn) {
+				if _, ok := holds(e.Guards, wGE("len(input) ≤ 0", 0, t(-1, `^len\(\$0\)$`))); !ok {
+					continue
+				}
+				if sl, ok := e.Results[0].(*ssa.Slice); ok {
+					if al, ok := sl.X.(*ssa.Alloc); ok {
+						if at, ok := al.Type().Underlying().(*types.Pointer).Elem().Underlying().(*types.Array); ok && at.Len() == 0 {
+							return true
+						}
+					}
+				}
+			}
+			return false
+		}
+		ce, de := emptyExit(comp), emptyExit(decomp)
+		c.check(ce == de && ce, rule, "Compress and Decompress map the empty input to the empty output", comp.Pos(), "both short-cut len == 0", fmt.Sprintf("empty-input shortcut: Compress %v, Decompress %v — the empty value no longer has the legacy (empty) encoding on both sides", ce, de))
+	}
+
+	// ---- decoder: expansion and hand-over
+	{
+		// (a) the table is full exactly at the maximum width (the encoder resets at maxCode = 2^maxWidth−1)
+		mw, _ := c.constVal(lz, "maxWidth")
+		nUndo := 0
+		for _, b := range decode.Blocks {
+			for _, in := range b.Instrs {
+				st, ok := in.(*ssa.Store)
+				if !ok {
+					continue
+				}
+				if f, _, ok := fieldOfAddr(st.Addr); !ok || f != "hi" {
+					continue
+				}
+				bo, ok := st.Val.(*ssa.BinOp)
+				if !ok || bo.Op != token.SUB {
+					continue
+				}
+				nUndo++
+				alts := altGuards(b)
+				_, ge := holdsAll(alts, wGE("width ≥ maxWidth", -mw, t(1, `\.width$`)))
+				_, gt := holdsAll(alts, wGE("width > maxWidth", -mw-1, t(1, `\.width$`)))
+				_, ge1 := holdsAll(alts, wGE("width ≥ maxWidth−1", -mw+1, t(1, `\.width$`)))
+				c.check(ge && !gt && ge1, rule, "decoder: the code table is full exactly at width == maxWidth", st.Pos(), "hi-- behind width == maxWidth", "the decoder stops assigning codes at another width than the encoder's table-full point (maxCode = 2^maxWidth − 1): the two disagree on every code after that")
+			}
+		}
+		c.check(nUndo == 1, rule, "decoder: one table-full undo of hi", decode.Pos(), "1", fmt.Sprintf("%d", nUndo))
+		// (b) backwards expansion: every byte gets a slot of its own
+		var outStores []*ssa.Store
+		for _, b := range decode.Blocks {
+			for _, in := range b.Instrs {
+				if st, ok := in.(*ssa.Store); ok {
+					if ia, ok := st.Addr.(*ssa.IndexAddr); ok && strings.HasSuffix(render(ia.X), ".output") {
+						outStores = append(outStores, st)
+					}
+				}
+			}
+		}
+		nPair := 0
+		for _, s1 := range outStores {
+			i1 := s1.Addr.(*ssa.IndexAddr).Index
+			for _, s2 := range outStores {
+				if s1 == s2 {
+					continue
+				}
+				i2 := s2.Addr.(*ssa.IndexAddr).Index
+				same := false
+				if i1 == i2 {
+					// same SSA index: only a violation if s2 can follow s1 without the index being recomputed
+					var defFirst ssa.Instruction
+					if di, ok := i1.(ssa.Instruction); ok && di.Block() != nil {
+						defFirst = di.Block().Instrs[0]
+					}
+					if _, reach := pathAvoiding(decode, s1, func(in ssa.Instruction) bool { return in == ssa.Instruction(s2) }, func(in ssa.Instruction) bool {
+						if in == defFirst {
+							return true // the index is recomputed when its defining block is entered again
+						}
+						rd, ok := in.(*ssa.Call)
+						return ok && strings.Contains(render(rd), ".read(")
+					}); reach {
+						same = true
+					}
+				}
+				if phi, ok := i2.(*ssa.Phi); ok {
+					for k, e := range phi.Edges {
+						if e == i1 && (phi.Block().Preds[k] == s1.Block() || blockReaches(s1.Block(), phi.Block().Preds[k], decode.Blocks[1])) {
+							same = true
+						}
+					}
+				}
+				nPair++
+				if same {
+					c.violate(rule, "decoder: each expanded byte is written to its own slot", s2.Pos(), "the store at "+c.pos(s2.Pos())+" can reuse the slot written at "+c.pos(s1.Pos())+" (index not decremented in between): the expansion comes out one byte short")
+				}
+			}
+		}
+		c.check(nPair >= 6, rule, "decoder: output stores examined for slot reuse", decode.Pos(), fmt.Sprintf("%d ordered pairs", nPair), fmt.Sprintf("only %d pairs of output stores", nPair))
+		// (c) KwKwK: the extra byte is the head of the previous expansion — reached through the prefix chain
+		nHead := 0
+		for _, st := range outStores {
+			_, isSpecial := holdsAll(altGuards(st.Block()), wEQ("code == hi", 0, t(1, `\.hi$`), t(-1, `read\(.*\)#0$`)))
+			if !isSpecial {
+				continue
+			}
+			nHead++
+			v := st.Val
+			if cv, ok := v.(*ssa.Convert); ok {
+				v = cv.X
+			}
+			okHead := true
+			var srcs []string
+			for _, fl := range flowsOf(v, nil) {
+				r := render(fl.Src)
+				srcs = append(srcs, r)
+				if !(strings.HasSuffix(r, ".last") || strings.Contains(r, ".prefix[")) {
+					okHead = false
+				}
+			}
+			c.check(okHead && len(srcs) >= 2, rule, "decoder: code == hi appends the head of the previous expansion (prefix chain from last)", st.Pos(), strings.Join(srcs, " | "), "the byte appended for code == hi comes from "+strings.Join(srcs, " | ")+", not from walking the prefix chain of the previous code: sequences other than runs of one byte decode wrongly")
+		}
+		c.check(nHead == 1, rule, "decoder: one head store in the code == hi case", decode.Pos(), "1", fmt.Sprintf("%d", nHead))
+		// (d) Read keeps what did not fit the caller's buffer
+		if rd := c.mustFn(lz, "Reader", "Read"); rd != nil {
+			n := 0
+			for _, b := range rd.Blocks {
+				for _, in := range b.Instrs {
+					st, ok := in.(*ssa.Store)
+					if !ok {
+						continue
+					}
+					if f, _, ok := fieldOfAddr(st.Addr); !ok || f != "toRead" {
+						continue
+					}
+					n++
+					sl, ok := st.Val.(*ssa.Slice)
+					okKeep := ok && sl.High == nil && sl.Low != nil && strings.HasSuffix(render(sl.X), ".toRead")
+					if okKeep {
+						cp, isCall := sl.Low.(*ssa.Call)
+						okKeep = isCall && calleeName(cp.Common()) == "builtin:copy"
+					}
+					c.check(okKeep, rule, "Reader.Read keeps the decoded bytes that did not fit", st.Pos(), "toRead = toRead[n:]", "after copying n bytes toRead becomes "+render(st.Val)+": the rest of the decoded chunk is lost and long values come back truncated")
+				}
+			}
+			c.check(n == 1, rule, "Reader.Read: one update of toRead", rd.Pos(), "1", fmt.Sprintf("%d", n))
+		}
+	}
+	// ---- encoder: a table reset wipes the whole hash table
+	{
+		n := 0
+		for _, b := range incHi.Blocks {
+			for _, in := range b.Instrs {
+				st, ok := in.(*ssa.Store)
+				if !ok {
+					continue
+				}
+				ia, ok := st.Addr.(*ssa.IndexAddr)
+				if !ok || !strings.HasSuffix(render(ia.X), ".table") {
+					continue
+				}
+				n++
+				size := int64(-1)
+				if at, ok := ia.X.Type().Underlying().(*types.Pointer); ok {
+					if arr, ok := at.Elem().Underlying().(*types.Array); ok {
+						size = arr.Len()
+					}
+				}
+				h := loopHeaderOf(b)
+				okAll := false
+				if h != nil && size > 0 {
+					if iff, ok := h.Instrs[len(h.Instrs)-1].(*ssa.If); ok {
+						if cmp, ok := iff.Cond.(*ssa.BinOp); ok && cmp.Op == token.LSS {
+							if k, ok := constInt(cmp.Y); ok && k == size {
+								if bo, ok := cmp.X.(*ssa.BinOp); ok && bo.Op == token.ADD {
+									if phi, ok := bo.X.(*ssa.Phi); ok {
+										if _, ok := counterIncrements(phi, func(v ssa.Value) bool { k, ok := constInt(v); return ok && k == -1 }); ok && ia.Index == ssa.Value(bo) {
+											okAll = true
+										}
+									}
+								}
+							}
+						}
+					}
+				}
+				c.check(okAll && isZeroConst(st.Val), rule, "encoder: a table reset clears every slot of the hash table", st.Pos(), fmt.Sprintf("for i := range table (%d slots)", size), "the reset loop does not cover all "+fmt.Sprint(size)+" slots: stale entries survive the clear code and the encoder emits codes the decoder has not defined")
+			}
+		}
+		c.check(n == 1, rule, "encoder: one hash-table wipe in incHi", incHi.Pos(), "1", fmt.Sprintf("%d stores to table", n))
 	}
 	_ = types.Typ
 }
